@@ -298,6 +298,27 @@ func genWire(g *genCtx) {
 			}
 		}
 	}
+	if g.part == "body" {
+		// the CMPP status-report body alone (C18)
+		tn := "cmpp.SubPduDeliveryContent"
+		nr := 300
+		if g.thorough() {
+			nr = 5000
+		}
+		rt(tn, defaultAssign(r, tn, false))
+		for _, f := range layouts[tn].Fields {
+			if f.K == "F" {
+				for k := 0; k <= f.W+1; k++ {
+					a := defaultAssign(r, tn, false)
+					a[f.N] = fval{b: nulFree(r, k)}
+					rt(tn, a)
+				}
+			}
+		}
+		for i := 0; i < nr; i++ {
+			rt(tn, defaultAssign(r, tn, true))
+		}
+	}
 	if g.part == "" || g.part == "relay" {
 		genRelay(g, r, emit)
 	}
